@@ -109,12 +109,12 @@ def dddmpAssertConsistent (f : DddmpFile) : Except Err Unit := do
 
 /-- `{var: k for k, var in enumerate(l)}` -/
 def enumDict (l : List Tok) : List (Tok × Int) :=
-  dictOf (l.zipIdx.map fun (var, k) => (var, (k : Int)))
+  dictOf (l.zipIdx.map fun p => (p.1, (p.2 : Int)))
 
 /-- the `info2permid` table of `_parse_header`, by `.varinfo` case -/
 def dddmpInfoTable (f : DddmpFile) (ids permids : List Int) : Except Err (List (Tok × Int)) :=
   match f.varinfo with
-  | some 0 => pure (dictOf ((ids.zip permids).map fun (i, k) => (Tok.num i, k)))
+  | some 0 => pure (dictOf ((ids.zip permids).map fun p => (Tok.num p.1, p.2)))
   | some 1 => pure (dictOf (permids.map fun k => (Tok.num k, k)))
   | some 2 => throw Err.notImplemented
   | some 3 =>
@@ -147,7 +147,7 @@ def dddmpLevels (f : DddmpFile) (permids : List Int) : Except Err (List (Tok × 
         | none => throw Err.key
       pure (dictOf l)
     | none =>
-      pure (dictOf (permids.zipIdx.map fun (idx, level) => (Tok.num idx, (level : Int))))
+      pure (dictOf (permids.zipIdx.map fun p => (Tok.num p.1, (p.2 : Int))))
 
 /-- `Parser._parse_header` after the LALR parse: `(info2permid, levels, roots)` -/
 def dddmpHeader (f : DddmpFile) :
@@ -292,8 +292,9 @@ def dddmpRebuild (o2n : List (Int × Int)) (bdd : List (Int × DddmpEntry)) :
     | (.error er, m') => (.error er, m')
     | (.ok umap', m') => dddmpRebuild o2n bdd n umap' m'
 
-/-- everything `load` computes: the manager and `umap` (the latter for the theorems) -/
-def loadDddmpU (f : DddmpFile) : Except Err (Mgr × List (Int × Int)) :=
+/-- `load` up to and including the rebuild loop: the manager (its `roots` still empty),
+`umap`, and the `roots` of the header -/
+def dddmpLoadCore (f : DddmpFile) : Except Err (Mgr × List (Int × Int) × List Int) :=
   match dddmpHeader f with
   | .error e => .error e
   | .ok (i2p, levels, roots) =>
@@ -308,13 +309,37 @@ def loadDddmpU (f : DddmpFile) : Except Err (Mgr × List (Int × Int)) :=
         | .ok m0 =>
           match dddmpRebuild o2n bdd newLevels.length dddmpUmap0 m0 with
           | (.error e, _) => .error e
-          | (.ok umap, m) =>
-            -- `bdd.roots.update(roots)`: the numbers of the FILE go into `roots` as they are
-            .ok ({ m with roots := roots }, umap)
+          | (.ok umap, m) => .ok (m, umap, roots)
+
+/-- `umap[abs(r)] if r > 0 else -umap[abs(r)]` -/
+def dddmpRootItem (umap : List (Int × Int)) (ρ : Int) : Except Err Int :=
+  match dictGet umap (ρ.natAbs : Int) with
+  | some r => .ok (if ρ > 0 then r else -r)
+  | none => .error .key
+
+/-- everything `load` computes: the manager and `umap` (the latter for the theorems).
+The last statement is
+`bdd.roots.update(umap[abs(r)] if r > 0 else -umap[abs(r)] for r in roots)`:
+the file numbers its nodes independently of the numbering in `bdd`. -/
+def loadDddmpU (f : DddmpFile) : Except Err (Mgr × List (Int × Int)) :=
+  match dddmpLoadCore f with
+  | .error e => .error e
+  | .ok (m, umap, roots) =>
+    match roots.mapM (dddmpRootItem umap) with
+    | .error e => .error e
+    | .ok rs => .ok ({ m with roots := dedupInts rs }, umap)
 
 /-- `dd.dddmp.load(fname)` on the abstract content of the file -/
 def loadDddmp (f : DddmpFile) : Except Err Mgr :=
   (loadDddmpU f).map (·.1)
+
+/-- HISTORICAL (before the repair of `dd/dddmp.py`, finding F1): `bdd.roots.update(roots)`
+stored the node numbers of the file untranslated.  Kept only for the witness theorem
+`dddmpPreFix_roots_false`; not the code. -/
+def loadDddmpPreFix (f : DddmpFile) : Except Err Mgr :=
+  match dddmpLoadCore f with
+  | .error e => .error e
+  | .ok (m, _, roots) => .ok { m with roots := roots }
 
 /-! ### semantics of a file (the SPECIFICATION `load` is proved against; executable, so
 that the driver can print it and the harness can compare it with its own evaluator) -/
@@ -351,30 +376,6 @@ def evalFile (f : DddmpFile) (α : String → Bool) (x : Int) : Bool :=
   match dddmpHeader f with
   | .ok (i2p, levels, _) => evalFileF i2p levels f.nodes α ((f.nvars.getD 0 + 2).toNat) x
   | .error _ => false
-
-/-! ### the repaired loader (NOT the current code)
-
-`bdd.roots.update(umap[abs(r)] if r > 0 else -umap[abs(r)] for r in roots)`: what `load`
-is meant to do with the root entries.  Kept next to the model of the current code so that
-the theorem about the intended behaviour (`dddmpLoadFixed_roots_of_foaSpec`) is checked,
-and so that the model can follow a repair of `dd/dddmp.py` by switching one name. -/
-
-/-- `umap[abs(r)] if r > 0 else -umap[abs(r)]` -/
-def dddmpRootItem (umap : List (Int × Int)) (ρ : Int) : Except Err Int :=
-  match dictGet umap (ρ.natAbs : Int) with
-  | some r => .ok (if ρ > 0 then r else -r)
-  | none => .error .key
-
-def loadDddmpFixedU (f : DddmpFile) : Except Err (Mgr × List (Int × Int)) :=
-  match loadDddmpU f with
-  | .error e => .error e
-  | .ok (m, umap) =>
-    match m.roots.mapM (dddmpRootItem umap) with
-    | .error e => .error e
-    | .ok rs => .ok ({ m with roots := dedupInts rs }, umap)
-
-def loadDddmpFixed (f : DddmpFile) : Except Err Mgr :=
-  (loadDddmpFixedU f).map (·.1)
 
 /-! ### the one-line encoding used by the driver
 
